@@ -10,6 +10,8 @@
 struct upump_mgr *fake_upump_mgr_alloc(uint16_t pool_depth, uint16_t blocker_pool_depth);
 /* number of pumps currently allocated / active (started and not blocked) */
 int fake_upump_count(struct upump_mgr *mgr);
+/* watchers of the loop that were allocated with this opaque (pipes pass themselves) */
+int fake_upump_count_opaque(struct upump_mgr *mgr, void *opaque);
 int fake_upump_active(struct upump_mgr *mgr);
 /* number of pumps that may fire now (ready fd pumps, due timers; idlers only when nothing else is ready) */
 int fake_upump_runnable(struct upump_mgr *mgr);
